@@ -1,10 +1,13 @@
 import Revm.Proofs.EvmLinkTotal2
 import Revm.Proofs.EvmLinkLoop
+import Revm.Proofs.EvmLinkHostAddr
+import Revm.Proofs.EvmInstLoaded2
 /-! LINK, panic-freedom, part 3 (C07 `run_total` on EvmLoop): along `run_the_loop`, from a well-formed world whose open
 frames hold nested checkpoints inside the journal, no journal / frame-machine `unwrap` is ever hit. What can still
 stop the loop: a soft failure (`Soft`), or a RESIDUAL failure of the interpreter side (`Resid`: an interpreter fault,
-a fault while inserting an outcome, `free_context`, an EOFCREATE action, an internal result flag, and `sload` /
-`sstore` / `selfdestruct` on an account that is not loaded), or the fuel. -/
+a fault while inserting an outcome, `free_context`, an EOFCREATE action, an internal result flag), or the fuel.
+`sload` / `sstore` / `selfdestruct` never fail: the request carries the frame's own address (`step_addr`), which is
+loaded (L3 `EvmInstLoaded.Inv`). -/
 set_option linter.unusedSimpArgs false
 set_option linter.unusedVariables false
 namespace Revm.Proofs.EvmLink
@@ -20,7 +23,6 @@ def Resid (e : Err) : Prop :=
   e = .panic "free_context" ∨
   e = .panic "unsupported: Action.eofCreate (EOF frames are not modelled)" ∨
   e = .panic "unexpected internal return flag" ∨
-  e = .panic "sload" ∨ e = .panic "sstore" ∨ e = .panic "selfdestruct" ∨
   e = .outOfFuel
 
 /-- `x` succeeds with a value satisfying `P`, or fails softly, or with a residual failure -/
@@ -45,54 +47,11 @@ theorem tot2_mono {α} {x : R α} {P Q : α → Prop} (h : Tot2 x P) (hq : ∀ a
   | ok a => exact hq a h
 theorem tot2_resid {α} {e : Err} {P : α → Prop} (h : Resid e) : Tot2 (.error e : R α) P := Or.inr h
 
-/-- a `Host` answer without knowing that the account is loaded: `sload` / `sstore` / `selfdestruct` may then fail -/
-theorem tot2_answer {w : World} (h : WOk w) (he : HostEnv) (op : Interp.HostOp) :
-    Tot2 (answer he w op) (fun r => WS w r.2) := by
-  have key : ∀ (a : Nat), (w.js.state a).isSome ∨ ¬ (w.js.state a).isSome := fun a => by
-    cases (w.js.state a).isSome <;> simp
-  cases op with
-  | sload a k =>
-    rcases key a with hp | hp
-    · exact tot2_of_tot (tot_answer h he _ hp)
-    · have : Journal.sload w.db w.js a k = none := by
-        cases hs : w.js.state a with
-        | none => simp [Journal.sload, hs, bind]
-        | some x => rw [hs] at hp; exact absurd rfl hp
-      simp only [answer]; rw [this]
-      exact tot2_resid (Or.inr (Or.inr (Or.inr (Or.inr (Or.inr (Or.inl rfl))))))
-  | sstore a k v =>
-    rcases key a with hp | hp
-    · exact tot2_of_tot (tot_answer h he _ hp)
-    · have : Journal.sstore w.db w.js a k v = none := by
-        cases hs : w.js.state a with
-        | none => simp [Journal.sstore, Journal.sload, hs, bind]
-        | some x => rw [hs] at hp; exact absurd rfl hp
-      simp only [answer]; rw [this]
-      exact tot2_resid (Or.inr (Or.inr (Or.inr (Or.inr (Or.inr (Or.inr (Or.inl rfl)))))))
-  | selfdestruct a t =>
-    cases hs : Journal.selfdestruct w.db w.js a t with
-    | none =>
-      simp only [answer]; rw [hs]
-      exact tot2_resid (Or.inr (Or.inr (Or.inr (Or.inr (Or.inr (Or.inr (Or.inr (Or.inl rfl))))))))
-    | some r =>
-      obtain ⟨s', hv, te, pd, c⟩ := r
-      obtain ⟨⟨es, p⟩, _⟩ := Proofs.Journal.selfdestruct_pushes (db := w.db)
-        (Proofs.Frame.balOk_of h.dbal h.good.bal) hs
-      obtain ⟨g', gr, hl⟩ := h.good.of_pushes h.dbal p
-      simp only [answer]; rw [hs]
-      show WS w ({ w with js := s' }.noteAddr t)
-      exact ⟨wok_noteAddr (wok_js h g') _, by rw [Proofs.EvmHost.noteAddr_js]; exact gr,
-        by rw [Proofs.EvmHost.noteAddr_js]; exact hl⟩
-  | keccak d => exact tot2_of_tot (tot_answer h he _ trivial)
-  | balance a => exact tot2_of_tot (tot_answer h he _ trivial)
-  | code a => exact tot2_of_tot (tot_answer h he _ trivial)
-  | codeHash a => exact tot2_of_tot (tot_answer h he _ trivial)
-  | blockHash n => exact tot2_of_tot (tot_answer h he _ trivial)
-  | tload a k => exact tot2_of_tot (tot_answer h he _ trivial)
-  | tstore a k v => exact tot2_of_tot (tot_answer h he _ trivial)
-  | log a t d => exact tot2_of_tot (tot_answer h he _ trivial)
-  | loadAccountDelegated a => exact tot2_of_tot (tot_answer h he _ trivial)
-  | create2Address d sl c => exact tot2_of_tot (tot_answer h he _ trivial)
+theorem tot2_bind' {α β} {x : R α} {f : α → R β} {P : α → Prop} {Q : β → Prop} (h1 : Tot2 x P)
+    (h2 : ∀ a, x = .ok a → P a → Tot2 (f a) Q) : Tot2 (x >>= f) Q := by
+  cases x with
+  | error e => exact h1
+  | ok a => exact h2 a rfl h1
 
 /-! ## the invariant of the loop (C07 `LInv`) -/
 
@@ -219,8 +178,8 @@ theorem tot2_afterStep {cfg : Cfg} {top : JFrame} {rest : List JFrame} {d : Inte
   | fault f => exact tot2_resid (Or.inl ⟨_, rfl⟩)
 
 /-- **one iteration of `run_the_loop` hits no journal / frame-machine `unwrap`** and keeps the invariant -/
-theorem tot2_iterate {cfg : Cfg} {stack : List JFrame} {w : World} (hne : stack ≠ []) (h : LI stack w) :
-    Tot2 (iterate journalOps cfg stack w) NInv := by
+theorem tot2_iterate {cfg : Cfg} {stack : List JFrame} {w : World} (hne : stack ≠ []) (h : LI stack w)
+    (hi : Proofs.EvmInstLoaded.Inv stack w) : Tot2 (iterate journalOps cfg stack w) NInv := by
   unfold iterate
   cases stack with
   | nil => exact absurd rfl hne
@@ -228,33 +187,41 @@ theorem tot2_iterate {cfg : Cfg} {stack : List JFrame} {w : World} (hne : stack 
     dsimp only
     split
     · exact tot2_afterStep h
-    · refine tot2_bind (tot2_answer h.ok cfg.he _) (fun p hp => ?_)
+    · rename_i op k heq
+      have haddr := step_addr top.interp heq
+      have hin : (w.js.state top.interp.target).isSome := isSome_of_ne_none (hi top (List.mem_cons_self ..))
+      have hok : HOk w.js op := by
+        cases op <;> first | trivial | (show (w.js.state _).isSome = true; rw [show _ = top.interp.target from haddr]; exact hin)
+      refine tot2_bind (tot2_of_tot (tot_answer h.ok cfg.he _ hok)) (fun p hp => ?_)
       exact tot2_afterStep (h.step hp)
 
 /-- **`run_the_loop` hits no journal / frame-machine `unwrap`** (C07 `run_total` on EvmLoop): for every fuel -/
 theorem tot2_runLoop (cfg : Cfg) : ∀ fuel : Nat,
-    (∀ stack w, stack ≠ [] → LI stack w → Tot2 (runLoop journalOps cfg fuel stack w) (fun p => WOk p.2)) ∧
-    (∀ top rest r out s w, LI (top :: rest) w →
+    (∀ stack w, stack ≠ [] → LI stack w → Proofs.EvmInstLoaded.Inv stack w →
+      Tot2 (runLoop journalOps cfg fuel stack w) (fun p => WOk p.2)) ∧
+    (∀ top rest r out s w, LI (top :: rest) w → Proofs.EvmInstLoaded.Inv rest w →
       Tot2 (runEnded journalOps cfg fuel top rest r out s w) (fun p => WOk p.2)) := by
   intro fuel
   induction fuel with
   | zero =>
-    refine ⟨fun stack w _ _ => ?_, fun top rest r out s w _ => ?_⟩
+    refine ⟨fun stack w _ _ _ => ?_, fun top rest r out s w _ _ => ?_⟩
     · unfold runLoop; exact tot2_resid (by unfold Resid; simp)
     · unfold runEnded; exact tot2_resid (by unfold Resid; simp)
   | succ n ih =>
-    refine ⟨fun stack w hne h => ?_, fun top rest r out s w h => ?_⟩
+    refine ⟨fun stack w hne h hi => ?_, fun top rest r out s w h hi => ?_⟩
     · unfold runLoop
-      refine tot2_bind (tot2_iterate hne h) (fun nx hnx => ?_)
+      refine tot2_bind' (tot2_iterate hne h hi) (fun nx heq hnx => ?_)
+      have hin := Proofs.EvmInstLoaded.iterate_inv heq hi
       cases nx with
-      | run st w' => exact ih.1 st w' hnx.1 hnx.2
-      | ended t rest r out s w' => exact ih.2 t rest r out s w' hnx
+      | run st w' => exact ih.1 st w' hnx.1 hnx.2 hin
+      | ended t rest r out s w' => exact ih.2 t rest r out s w' hnx hin
       | done r w' => exact tot2_pure hnx
     · unfold runEnded
-      refine tot2_bind (tot2_frameEnd h) (fun nx hnx => ?_)
+      refine tot2_bind' (tot2_frameEnd h) (fun nx heq hnx => ?_)
+      have hin := Proofs.EvmInstLoaded.frameEnd_inv heq hi
       cases nx with
-      | run st w' => exact ih.1 st w' hnx.1 hnx.2
-      | ended t rest r out s w' => exact ih.2 t rest r out s w' hnx
+      | run st w' => exact ih.1 st w' hnx.1 hnx.2 hin
+      | ended t rest r out s w' => exact ih.2 t rest r out s w' hnx hin
       | done r w' => exact tot2_pure hnx
 
 end Revm.Proofs.EvmLink
